@@ -244,6 +244,13 @@ def check_journal_validity(ctx, inst="C03.journal-validity", position_inst="C03.
         ("Lt", entry, lambda e: e.k == "const" and e.has_const(name="FEOX_DATA_START_BLOCK"), "an entry below the data area is refused (`sector < FEOX_DATA_START_BLOCK`)"),
         ("Lt", entry, end, "an entry whose end does not exceed its start is refused (`end <= sector`)"),
     ])
+    def nxt_start(e):
+        return e.k == "field" and str(e.extra[1]) == "0" and any(x.k == "index" or (x.k == "call" and x.extra.endswith("::index")) for x in e.walk()) and not e.has_call("checked_add")
+    def prev_end(e):
+        return e.has_call("checked_add") and any(x.k == "index" or (x.k == "call" and x.extra.endswith("::index")) for x in e.walk())
+    pin_comparisons(ctx, inst, b, [
+        ("Lt", nxt_start, prev_end, "journaled extents that merely touch are valid; only a real overlap (`previous_end > next.start`, strict) rejects the slot"),
+    ])
     flt = ctx.sites(b, R.call("Option::filter"), inst, exact=1)
     ok = False
     for c in ctx.prog.closures_of(b):
